@@ -75,6 +75,11 @@ MUTANTS = {
         ("realignment", "wrong-sys", "y_tmp = partial_transpose(x_tmp, [0], dim_x)", "y_tmp = partial_transpose(x_tmp, [1], dim_x)"),
         ("realignment", "first-swap-dropped", "x_tmp = swap(input_mat, [1, 2], dim, True)", "x_tmp = input_mat"),
     ],
+    "C18": [
+        ("antisymmetric_projection", "zero-indexed-sign", "perm_sign(p_list[j, :] + 1)", "perm_sign(p_list[j, :])"),
+        ("symmetric_projection", "perm-offset", "permutation_operator(dim * np.ones(p_val), perm, False, True)", "permutation_operator(dim * np.ones(p_val), perm + 1, False, True)"),
+        ("antisymmetric_projection", "dims-too-short", "permutation_operator(dim * np.ones(p_param), p_list[j, :], False, True)", "permutation_operator(dim * np.ones(p_param - 1), p_list[j, :], False, True)"),
+    ],
     "C16": [
         ("vec", "vec-order-C", 'order="F"', 'order="C"'),
         ("unvec", "unvec-order-C", "order=\"F\"", "order=\"C\""),
